@@ -9,3 +9,22 @@ Local Opaque bfe_mul bfe_add bfe_sub bfe_neg.
 
 Theorem xfe_mul_gen_is_model : forall x y, xfe_mul_gen x y = xmul x y.
 Proof. intros [[c b] a] [[f e] d]. reflexivity. Qed.
+
+(* the linear operators: Add, Neg, Sub, scalar multiplication and the mixed BFieldElement / XFieldElement forms *)
+Theorem xfe_linear_gen_is_model :
+  (forall x y, xfe_add_gen x y = xadd x y) /\
+  (forall x, xfe_neg_gen x = xneg x) /\
+  (forall x y, xfe_sub_gen x y = xsub x y) /\
+  (forall x k, xfe_scale_gen x k = xscale x k) /\
+  (forall k x, bfe_mul_xfe_gen k x = xscale x k) /\
+  (forall x k, xfe_add_bfe_gen x k = xaddb x k) /\
+  (forall k x, bfe_add_xfe_gen k x = baddx k x) /\
+  (forall x k, xfe_sub_bfe_gen x k = xsubb x k) /\
+  (forall k x, bfe_sub_xfe_gen k x = bsubx k x).
+Proof.
+  repeat (match goal with |- _ /\ _ => split end);
+    first [ intros [[a b] c] [[d e] f]; reflexivity
+          | intros [[a b] c] k; reflexivity
+          | intros k [[a b] c]; reflexivity
+          | intros [[a b] c]; reflexivity ].
+Qed.
